@@ -95,6 +95,16 @@ func genC15(r *simrt.RNG, tier string, variant int) Plan {
 		// the peer stops reading: server writes on connection 0 block (full send
 		// buffer) from now on; the connection must still be let go of
 		p.Params["wstall"] = 1
+		if p.Servers[0].Reverse && r.Bool(0.7) {
+			// ... and a handler starts calling back only after that: the connection
+			// routine is then blocked in the write of the reverse request, write lock held
+			for i := range p.Ops {
+				if p.Ops[i].Kind == "rev" && p.Ops[i].Client == 0 {
+					p.Ops[i].SleepNs = int64(300e6)
+					p.Params["late_rev"] = 1
+				}
+			}
+		}
 	}
 	p.Params["react_ms"] = Pick(r, []int64{0, 1, 500, 60000, 400000})
 	if variant >= 0 {
@@ -221,6 +231,13 @@ func runC15(e *Env, p *Plan) {
 	if p.Param("wstall", 0) > 0 {
 		e.N.Inject(0, "wstall", "s2c", 0)
 		e.Probe("peer-stopped-reading")
+		if p.Param("late_rev", 0) > 0 {
+			e.S.Sleep(200 * time.Millisecond)
+			if !e.S.Settle(time.Millisecond) {
+				return
+			}
+			e.Probe("reverse-call-issued-into-the-stall")
+		}
 	}
 	if len(p.Faults) == 0 {
 		for _, g := range gates {
